@@ -47,9 +47,9 @@ func (g *gen) newCase() {
 	g.emit("#case %d", g.ncase)
 	g.ncase++
 }
-func (g *gen) intn(n int) int           { return g.rnd.Intn(n) }
-func (g *gen) chance(num, den int) bool { return g.rnd.Intn(den) < num }
-func (g *gen) pick(xs ...int64) int64   { return xs[g.rnd.Intn(len(xs))] }
+func (g *gen) intn(n int) int            { return g.rnd.Intn(n) }
+func (g *gen) chance(num, den int) bool  { return g.rnd.Intn(den) < num }
+func (g *gen) pick(xs ...int64) int64    { return xs[g.rnd.Intn(len(xs))] }
 func (g *gen) pickS(xs ...string) string { return xs[g.rnd.Intn(len(xs))] }
 
 // runner is the real-code driver context.
